@@ -34,7 +34,7 @@ def rand_atom(rng, modelled=False):
         return rng.random() < 0.5
     if r < 0.65:
         return rng.choice([0, 1, 2, 3, 7])
-    return rng.choice(['', 'u', 'vw', 'A b', 'q<r'])
+    return rng.choice(['', 'u', 'vw', 'A b', 'q<r', 'inc'])
 
 
 def rand_data(rng, modelled=False, fail_bias=0.0):
@@ -201,9 +201,9 @@ class Gen(object):
         m = self.modelled
         dirs = []
         newvars = []
-        kinds = ['if', 'for', 'with', 'choose', 'strip']
+        kinds = ['if', 'for', 'with', 'choose', 'strip', 'content', 'replace']
         if not m:
-            kinds += ['content', 'replace', 'attrs', 'def', 'match']
+            kinds += ['attrs', 'def', 'match']
         k = rng.choice([1, 1, 1, 2, 2, 3])
         for name in rng.sample(kinds, min(k, len(kinds))):
             if name == 'if':
@@ -247,8 +247,8 @@ class Gen(object):
                 dirs.append(('when', rand_expr(rng, m, 'bool', loopvars)))
             else:
                 dirs.append(('otherwise', ''))
-        elif rng.random() < 0.03 and not m:
-            dirs.append(('when', 'a'))       # outside a choose: runtime error
+        elif rng.random() < 0.03:
+            dirs.append(rng.choice([('when', 'a'), ('otherwise', '')]))       # outside a choose: runtime error
         for d in dirs:
             self.features.add('py:' + d[0])
         return dirs, newvars
@@ -392,7 +392,7 @@ def rand_template(rng, modelled=False):
         if rng.random() < 0.5:
             g2 = Gen(rng, False, i18n=translator, includes=['inc.html'])
             g2.budget = 3
-            files['u.html'] = g2.template()
+            files['w2.html'] = g2.template()      # never the target of a dynamic include: no include cycles
     g = Gen(rng, modelled, i18n=translator, includes=sorted(files))
     src = g.template()
     feats = set(g.features)
